@@ -43,7 +43,7 @@ def cases(draw, max_leaves):
     op = draw(st.sampled_from(OPS + ["reroot_at_midpoint", "to_outgroup_position", "reroot_at_edge"]))
     pats = ("none", "unit", "smallint", "dyadic", "float", "partial")
     if op == "reroot_at_midpoint":
-        pats = ("unit", "unit", "smallint", "dyadic", "float", "decimal", "decimal")
+        pats = ("unit", "unit", "smallint", "dyadic", "float", "decimal", "decimal", "zeroish", "zeroish")
     sl = draw(shapes.with_lengths(shapes.shapes(min_leaves=2 if op == "reroot_at_midpoint" else 3, max_leaves=max_leaves,
                                                 max_arity=4, unifurcations=True), patterns=pats))
     return {"spec": sl["spec"], "lenpat": sl["lenpat"], "rooted": draw(st.sampled_from([True, False, None])), "op": op,
@@ -62,7 +62,7 @@ def cases(draw, max_leaves):
 @st.composite
 def history_cases(draw, max_leaves):
     sl = draw(shapes.with_lengths(shapes.shapes(min_leaves=4, max_leaves=max_leaves, max_arity=3, unifurcations=False),
-                                  patterns=("unit", "smallint", "dyadic", "float", "dyadic", "decimal")))
+                                  patterns=("unit", "smallint", "dyadic", "float", "dyadic", "decimal", "zeroish")))
     ops = []
     for _ in range(draw(st.integers(2, 4))):
         ops.append({"op": draw(st.sampled_from(["reroot_at_midpoint", "reroot_at_midpoint", "reroot_at_node", "reseed_at", "reroot_at_edge",
